@@ -32,6 +32,7 @@ def gen(tier: str, seed: int) -> list[Case]:
     rng = rng_for(seed, PID, "gen")
     gated = gated_features()
     cfg = pg.GenCfg()
+    cfg.shared_member_names = True
     cfg.reexport_forms = tuple(f for f in pg.ALL_REEXPORT_FORMS if f"reexport:{f}" not in gated)
     cfg.private_enums = True  # the inventory contains private declarations too
     cfg.inheritance = True
